@@ -80,7 +80,7 @@ package interpreter
 //@   env MemoryMeteringError ComputationMeteringError
 //@   modifies ghost("metered")
 //@   ensures[C11] kind(result) == IntValue && num(result.(IntValue)) == -num(v) && valid(result)
-//@   ensures[C32] context != nil ==> ghost("metered") >= 8 * words(num(result))
+//@   ensures[C32] context != nil ==> meteredfor(8 * words(num(result)))
 //@ func (UIntValue).compare
 //@   requires valid(v) && valid(o)
 //@   nofail
